@@ -91,6 +91,18 @@ func (fr *Frame) execCall(ins ssa.Instruction, cc *ssa.CallCommon, c *blockCtx) 
 	}
 	// dynamic call through a function value
 	fv := fr.val(cc.Value)
+	// range-over-func: seq(yield) where seq is the result of a call whose contract declares it a sequence and
+	// yield is the synthetic loop-body closure
+	if pc, ok := cc.Value.(*ssa.Call); ok && len(args) == 1 {
+		if k := fr.calleeKey(&pc.Call); k != "" {
+			if sfc := g.W.contracts[k+"#ret0"]; sfc != nil && sfc.Seq {
+				if ycl, ok := g.closures[args[0].S]; ok {
+					fr.seqCall(sfc, k+"#ret0", ycl, c, ins)
+					return nil
+				}
+			}
+		}
+	}
 	if cl, ok := g.closures[fv.S]; ok {
 		return fr.callStatic(cl.fn, cl.bindings, args, sig, c, ins)
 	}
@@ -1362,4 +1374,167 @@ func (fr *Frame) monitorCheck(m *FuncContract, obj Term, c *blockCtx, phase stri
 		}
 		g.oblige("monitor", fr.oname(fmt.Sprintf("monitor/%s@%s#%d", m.Name, phase, ord), label), c.reach, env.trBool(inv.E), inv.Src, false)
 	}
+}
+
+// seqCall is the proof rule for "for x, y := range seq { body }" (go/ssa turns the body into a synthetic closure and
+// calls seq(closure)): the loop is cut like any other loop. The closure's contract carries "yield invariant" clauses
+// over the enclosing function's variables and $k (number of completed iterations); the sequence's contract ("seq",
+// "yields e" over $y0, $y1, $k) says what is known about the values handed to the body. The invariant is asserted
+// before the first iteration, everything the body writes is havoced, the invariant assumed, the body executed once on
+// unknown yielded values; where it asks for more (returns true) the invariant must hold again with $k+1. After the
+// call the state is either such an invariant state (the sequence ended) or the state in which the body returned false.
+func (fr *Frame) seqCall(sfc *FuncContract, skey string, cl *closureVal, c *blockCtx, ins ssa.Instruction) {
+	g := fr.g
+	yfc := g.W.contracts[funcKey(cl.fn)]
+	if yfc == nil || len(yfc.YieldInvs) == 0 {
+		g.fail("range over %s in %s: the loop body %s has no yield invariant", skey, funcKey(fr.fn), funcKey(cl.fn))
+	}
+	g.usedAssumed[skey] = true
+	fr.callOrd["seq"]++
+	ord := fr.callOrd["seq"] - 1
+	// the jump variable of the synthetic closure: 0 = ready for the next iteration
+	jumpAddr := ""
+	for i, fv := range cl.fn.FreeVars {
+		if strings.HasPrefix(fv.Name(), "jump$") && i < len(cl.bindings) {
+			jumpAddr = cl.bindings[i].S
+		}
+	}
+	at := fr.curBlock
+	mkEnv := func(st *State, k string) *Env {
+		env := fr.baseEnv(st)
+		env.old = fr.entrySt
+		env.resolve = func(n string, st2 *State) (Term, Ty, bool) {
+			if n == "$k" {
+				return Term{k, SInt}, mathInt, true
+			}
+			return fr.resolveLocalAt(n, at, st2)
+		}
+		return env
+	}
+	// 1. invariant before the first iteration
+	env0 := mkEnv(c.st, "0")
+	for i, inv := range yfc.YieldInvs {
+		label := inv.Label
+		if label == "" {
+			label = fmt.Sprint(i)
+		}
+		g.oblige("inv-entry", fr.oname("inv-entry", fmt.Sprintf("range%d/%s", ord, label)), c.reach, env0.trBool(inv.E), inv.Src, false)
+	}
+	yieldArgs := func() []Term {
+		var ys []Term
+		ps := cl.fn.Signature.Params()
+		for i := 0; i < ps.Len(); i++ {
+			v := g.sc.Fresh("yield", g.sortOf(ps.At(i).Type()))
+			g.sc.Assume(g.typeInv(v.S, ps.At(i).Type()))
+			g.assumeOld(v, g.curBase)
+			ys = append(ys, v)
+		}
+		return ys
+	}
+	// 2. write set of the body by a dry run
+	writes := fr.dryRunCall(cl, yieldArgs, c, ins)
+	// 3. havoc, assume the invariant at an unknown iteration
+	hst := c.st.clone()
+	preTop := g.allocTop()
+	nb := g.sc.Fresh("base", SInt)
+	g.sc.Assume(fmt.Sprintf("(>= %s (+ %s %d))", nb.S, g.curBase, g.allocN+1))
+	g.curBase = nb.S
+	g.havocWrites(hst, c.st, writes, nb.S, preTop, nil)
+	k := g.sc.Fresh("seqk", SInt)
+	g.sc.Assume("(>= " + k.S + " 0)")
+	if jumpAddr != "" {
+		g.sc.Assume(implies(c.reach, eq(g.load(hst, jumpAddr, types.Typ[types.Int]).S, "0")))
+	}
+	envH := mkEnv(hst, k.S)
+	for _, inv := range yfc.YieldInvs {
+		g.sc.Assume(implies(c.reach, envH.trBool(inv.E)))
+	}
+	// 4. one iteration on unknown yielded values
+	ys := yieldArgs()
+	yenv := mkEnv(hst, k.S)
+	base := yenv.resolve
+	yenv.resolve = func(n string, st2 *State) (Term, Ty, bool) {
+		if strings.HasPrefix(n, "$y") {
+			if i, err := strconv.Atoi(n[2:]); err == nil && i < len(ys) {
+				return ys[i], goTy(cl.fn.Signature.Params().At(i).Type()), true
+			}
+		}
+		return base(n, st2)
+	}
+	for _, y := range sfc.Yields {
+		g.sc.Assume(implies(c.reach, yenv.trBool(y.E)))
+	}
+	body := &blockCtx{st: hst.clone(), reach: c.reach}
+	res := fr.callStatic(cl.fn, cl.bindings, ys, cl.fn.Signature, body, ins)
+	more := "true"
+	if len(res) > 0 {
+		more = res[0].S
+	}
+	// 5. the invariant again where the body asks for more
+	k1 := "(+ " + k.S + " 1)"
+	envN := mkEnv(body.st, k1)
+	for i, inv := range yfc.YieldInvs {
+		label := inv.Label
+		if label == "" {
+			label = fmt.Sprint(i)
+		}
+		g.oblige("inv-preserve", fr.oname("inv-preserve", fmt.Sprintf("range%d/%s", ord, label)), and(body.reach, more), envN.trBool(inv.E), inv.Src, false)
+	}
+	// 6. after the call: the sequence ended in an invariant state, or the body stopped it
+	done := g.sc.Fresh("seqdone", SBool)
+	g.sc.Assume(implies(and(c.reach, not(done.S)), and(body.reach, not(more))))
+	c.st = g.mergeStates([]string{done.S, "true"}, []*State{hst, body.st})
+	c.reach = and(c.reach, or(done.S, and(body.reach, not(more))))
+	if _, ok := g.W.ghosts["$exhausted"]; ok {
+		// ghost flag: the sequence ran to its end (as opposed to being stopped by the loop body)
+		g.setGhost(c.st, "$exhausted", "Nil", done.S)
+	}
+}
+
+// dryRunCall inlines a closure once on a scratch copy of the script to collect what it writes.
+func (fr *Frame) dryRunCall(cl *closureVal, mkArgs func() []Term, c *blockCtx, ins ssa.Instruction) []writeRec {
+	g := fr.g
+	snapLines, snapN, snapObls, snapAlloc, snapBase := len(g.sc.lines), g.sc.n, len(g.obls), g.allocN, g.curBase
+	saveVals := map[ssa.Value]Term{}
+	for k, v := range fr.vals {
+		saveVals[k] = v
+	}
+	saveOrd := map[string]int{}
+	for k, v := range fr.callOrd {
+		saveOrd[k] = v
+	}
+	saveInline := g.inlineN
+	g.dry++
+	log := &writeLog{snapN: snapN, snapAlloc: snapAlloc, snapBase: snapBase}
+	prevLog := g.wlog
+	g.wlog = log
+	var failure any
+	func() {
+		defer func() {
+			if r := recover(); r != nil {
+				failure = r
+			}
+		}()
+		run := &blockCtx{st: c.st.clone(), reach: c.reach}
+		fr.callStatic(cl.fn, cl.bindings, mkArgs(), cl.fn.Signature, run, ins)
+	}()
+	g.dry--
+	g.wlog = prevLog
+	g.sc.lines = g.sc.lines[:snapLines]
+	g.sc.n = snapN
+	g.obls = g.obls[:snapObls]
+	g.allocN = snapAlloc
+	g.curBase = snapBase
+	g.inlineN = saveInline
+	fr.vals = saveVals
+	fr.callOrd = saveOrd
+	if failure != nil {
+		panic(failure)
+	}
+	if prevLog != nil {
+		for _, w := range log.recs {
+			prevLog.add(g, w.key, w.elemSort, w.addr, w.pattern)
+		}
+	}
+	return log.recs
 }
